@@ -1,6 +1,7 @@
 """Program model over the nvx facts: functions, CFGs, call graph, descriptors, guard facts,
 dominators, path search, effect summaries.  Pure Python, stdlib only."""
 import collections
+import os
 import sys
 
 from facts import AnalysisBroken
@@ -165,7 +166,7 @@ def mentions_call(d, name):
 
 
 def mentions_var(d, name):
-    return any(x.get('k') == 'var' and x['n'] == name for x in walk(d))
+    return any(x.get('k') == 'var' and (x['n'] == name or x['n'].split('@')[0] == name) for x in walk(d))
 
 
 def mentions_enum(d, name):
@@ -426,6 +427,20 @@ class Fn:
             if (key, not pol) in fs:
                 return True
             a = strip(atom)
+            # a conjunction known false although every conjunct is known true (and dually for ||)
+            if isinstance(a, dict) and a.get('k') == 'bin' and a['op'] in ('&&', '||'):
+                want = a['op'] == '&&'
+                if pol != want:
+                    parts = []
+                    st = [a]
+                    while st:
+                        x = strip(st.pop())
+                        if isinstance(x, dict) and x.get('k') == 'bin' and x['op'] == a['op']:
+                            st += [x['l'], x['r']]
+                        else:
+                            parts.append(norm_cond(self.prog, x))
+                    if parts and all((dstr(pa), pp == want) in fs or (dstr(pa), (pp == want)) in fs for pa, pp in parts):
+                        return True
             if isinstance(a, dict) and a.get('k') == 'bin' and a['op'] == '==':
                 v = const_value(a['r'])
                 if v is not None:
@@ -548,6 +563,8 @@ class Fn:
                     a2, p2 = norm_cond(self.prog, init)
                     pol = pol if p2 else (not pol)
                     out.setdefault(dstr(a2), (pol, a2))
+                    for k3, p3, a3 in _split_composite(self.prog, a2, pol):
+                        out.setdefault(k3, (p3, a3))
                     a = strip(a2)
                 else:
                     break
@@ -564,6 +581,25 @@ class Fn:
 
     def reachable_blocks(self):
         return self.reachable_from(self.entry) | {self.entry}
+
+
+def _split_composite(prog, atom, pol, depth=0):
+    """`a && b` known true yields a and b; `a || b` known false yields !a and !b (recursively)."""
+    a = strip(atom)
+    out = []
+    if depth > 6 or not (isinstance(a, dict) and a.get('k') == 'bin' and a['op'] in ('&&', '||')):
+        return out
+    if (a['op'] == '&&') != bool(pol):
+        return out
+    for part in (a['l'], a['r']):
+        pa, pp = norm_cond(prog, part)
+        p = pp if pol else (not pp)
+        sp = strip(pa)
+        if isinstance(sp, dict) and sp.get('k') == 'bin' and sp['op'] in ('&&', '||'):
+            out += _split_composite(prog, pa, p, depth + 1)
+        else:
+            out.append((dstr(pa), p, pa))
+    return out
 
 
 def _dominators(entry, nodes, succ, preds):
@@ -763,6 +799,10 @@ def _edge_facts(fn, bid, idx):
                 if k2 not in seen and not (isinstance(strip(a2), dict) and strip(a2).get('k') in ('bool', 'int')):
                     res.append((k2, pol, a2))
                     seen.add(k2)
+                for k3, p3, a3 in _split_composite(fn.prog, a2, pol):
+                    if k3 not in seen:
+                        res.append((k3, p3, a3))
+                        seen.add(k3)
                 a = strip(a2)
             else:
                 break
@@ -980,7 +1020,11 @@ PRIM_EFFECTS = {
 
 
 class Program:
-    def __init__(self, facts):
+    def __init__(self, facts, inline=True):
+        self.inline_report = None
+        if inline and os.environ.get('NV_NO_INLINE') != '1':
+            import inline as _inl
+            facts, self.inline_report = _inl.inline_helpers(facts)
         self.facts = facts
         self.functions = {fid: Fn(self, d) for fid, d in facts['functions'].items()}
         self.by_name = collections.defaultdict(list)
